@@ -24,7 +24,18 @@ def san_tail(prefix, offset):
     return txt[offset:]
 
 
+def subnormals_survive():
+    """Floating-point environment probe: False when this thread runs with
+    flush-to-zero / denormals-are-zero (as set process-wide by crtfastmath.o
+    when a shared object is linked with -ffast-math / -Ofast).  Operands come
+    from run-time values so that nothing is folded at compile time."""
+    x = float.fromhex('0x0.0000000000001p-1022')
+    one = float(len(sys.argv) > 0)
+    return (x * one) != 0.0 and (float.fromhex('0x1p-1022') * 0.5 * one) != 0.0
+
+
 def main():
+    fp_ok_at_start = subnormals_survive()
     spec = json.load(open(sys.argv[1]))
     out = sys.argv[2]
     prop = spec['prop']
@@ -91,6 +102,17 @@ def main():
                     {'excerpt': txt[:3000]})
     if hasattr(mod, 'teardown'):
         mod.teardown(ctx)
+    ctx.counters['fp_environment_probes'] += 1
+    if fp_ok_at_start and not subnormals_survive():
+        # importing / running the library changed the floating-point mode of
+        # the process: every result on subnormal data is silently flushed to
+        # zero, in the library and in the caller's own NumPy code alike
+        ctx.case_desc = {'probe': 'subnormal * 1.0'}
+        ctx.violation('process.fp-environment.flush-to-zero',
+                      'subnormal numbers survived arithmetic when the worker '
+                      'started and are flushed to zero after importing and '
+                      'running the extension modules (FTZ/DAZ set, e.g. by a '
+                      'shared object linked with -Ofast / -ffast-math)')
     res = ctx.result()
     res['wall_s'] = time.time() - t0
     res['completed'] = True
